@@ -23,6 +23,7 @@ TRACE_FILES = ('AEIC/trajectories/store.py',)
 
 def warm():
     import AEIC.trajectories.store  # noqa: F401
+    from engines import store_gen  # noqa: F401  (loaded in the warm parent, never lazily in a run)
 
 
 class Failure(Exception):
@@ -165,10 +166,14 @@ def _execute_inner(setup, schedule, rng, record, TrajectoryStore):
                         s1 = sched.log('ctor.end', name, outcome='ok')
                         events.append((s0, s1, name, 'ok', 'merge'))
                     continue
-                if act in ('create', 'create_sub'):
+                if act in ('create', 'create_sub', 'create_ctor'):
                     s0 = sched.log('ctor.start', name)
                     try:
-                        st = (SubStore if act == 'create_sub' else TrajectoryStore).create()
+                        if act == 'create_ctor':
+                            # the documented constructor instead of the class method
+                            st = TrajectoryStore(mode='w')
+                        else:
+                            st = (SubStore if act == 'create_sub' else TrajectoryStore).create()
                     except RuntimeError as e:
                         s1 = sched.log('ctor.end', name, outcome='refused')
                         events.append((s0, s1, name, 'refused', str(e)[:80]))
@@ -198,6 +203,22 @@ def _execute_inner(setup, schedule, rng, record, TrajectoryStore):
     except T.Deadlock as d:
         violation = {'code': 'owner.deadlock', 'props': ['C20'], 'features': {'policy': policy['kind']},
                      'detail': f'all live threads blocked on locks: {d}'}
+    # afterwards the main thread (which created no store) tries as well: if a worker owns the
+    # stores it must be refused like any other thread
+    if violation is None and any(e[3] == 'ok' for e in events) and any(t.thread is None or not t.thread.is_alive()
+                                                                        for t in sched.threads.values()):
+        owner = next(e[2] for e in events if e[3] == 'ok')
+        try:
+            TrajectoryStore.create()
+        except RuntimeError:
+            sched.log('main.attempt', 'main', outcome='refused')
+        except Exception as e:  # noqa: BLE001
+            sched.log('main.attempt', 'main', outcome='error:' + type(e).__name__)
+        else:
+            violation = {'code': 'owner.late_attempt_accepted', 'props': ['C20'],
+                         'features': {'policy': policy['kind'], 'granularity': 'opcode' if setup.get('opcode') else 'line',
+                                      'threads': len(setup['threads']), 'who': 'main'},
+                         'detail': f'the main thread constructed a store although {owner} owns the stores'}
     for ev in sched.events:
         trace.log(ev[0], ev[1], ev[2], ev[3])
     trace.log('grants', short_hash(sched.grants), len(sched.grants))
@@ -275,7 +296,7 @@ def draw_setup(rng: random.Random, tier: str) -> dict:
         k = rng.choice([1, 1, 2, 3])
         sc = []
         for _ in range(k):
-            sc.append('create' if rng.random() < 0.8 else 'create_sub')
+            sc.append(rng.choices(['create', 'create_sub', 'create_ctor'], [0.65, 0.15, 0.2])[0])
             r2 = rng.random()
             if r2 < 0.3:
                 sc.append('close')
